@@ -47,9 +47,18 @@ partial def concStep (args : List String) : String :=
     | some m => s!"ok billed={m * 1000}"
     | none => "bad-op"
   | "withdraw" :: rest =>
-    match (findStr "credit" rest).bind (·.toInt?), (findStr "fee" rest).bind (·.toInt?) with
-    | some c, some f => s!"ok successes=1 settlements=1 paid={c - f} left=0"
-    | _, _ => "bad-op"
+    -- the service serialises withdrawals of a wallet (C07 `racing_withdrawals`): whatever the arrival order, the
+    -- attempts form a sequence; the first `failfirst` settlements fail and leave the balance alone, the next one pays
+    -- credit − fee and leaves nothing, every later attempt finds less than the minimum
+    match (findStr "credit" rest).bind (·.toInt?), (findStr "fee" rest).bind (·.toInt?),
+          (findStr "workers" rest).bind (·.toNat?), ((findStr "failfirst" rest).bind (·.toNat?)).getD 0 with
+    | some c, some f, some w0, ff =>
+      -- requests overtaken by a later nonce are refused at authentication (observed count, one per round)
+      let refused := ((findArg "refused" rest).getD ["0"]).map (fun x => x.toNat?.getD 0)
+      let rs := refused.map (fun r => if ff < w0 - r then ((1 : Nat), c - f, (0 : Int)) else (0, 0, c))
+      let succ := (rs.map (·.1)).foldl (· + ·) 0
+      s!"ok successes={succ} paid={sumInts (rs.map (·.2.1))} left={sumInts (rs.map (·.2.2))} maxinflight=1"
+    | _, _, _, _ => "bad-op"
   | _ => "bad-op"
 
 end Vipnode.Drv
